@@ -601,6 +601,54 @@ def trilinear():
              '  | _ => None\n  end.')
     return kern + '\n\n' + head + '\n  '.join(out) + '\n\n' + dense
 
+# ------------------------------------------------------------------------------------------ FacetBasis: which cell is "side s"
+FB = 'skfem/assembly/basis/facet_basis.py'
+
+
+def facet_sides():
+    """FacetBasis.__init__: the row of f2t that supplies the cell of each facet, for oriented facet sets and plain ones.
+    `(-1) ** side` is folded for side = 0, 1; the remaining expression is linear in ori and translated to Z."""
+    fn = t2.find_def(t2.parse(FB), '__init__', 'FacetBasis')
+    blk = [x for x in ast.walk(fn) if isinstance(x, ast.If) and t2.src(x.test) == 'isinstance(self.find, OrientedBoundary)']
+    blk = t2.only(blk, 'orientation branch of FacetBasis.__init__')
+
+    def row(stmts, target):
+        st = t2.only([x for x in stmts if isinstance(x, ast.Assign) and t2.src(x.targets[0]) == target], target)
+        v = st.value
+        if not (isinstance(v, ast.Subscript) and t2.src(v.value) == 'self.mesh.f2t'):
+            raise TranslateError(f'{target}: expected self.mesh.f2t[row, self.find]: ' + t2.src(v))
+        ix = t2.index_tuple(v)
+        if len(ix) != 2 or t2.src(ix[1]) != 'self.find':
+            raise TranslateError(f'{target}: index ' + t2.src(v))
+        return ix[0]
+
+    class Fold(ast.NodeTransformer):
+        def __init__(self, side):
+            self.side = side
+
+        def visit_BinOp(self, n):
+            if isinstance(n.op, ast.Pow) and t2.src(n.left) in ('(-1)', '-1') and t2.src(n.right) == 'side':
+                return ast.copy_location(ast.Constant(1 if self.side == 0 else -1), n)
+            self.generic_visit(n)
+            return n
+
+        def visit_Name(self, n):
+            return ast.copy_location(ast.Constant(self.side), n) if n.id == 'side' else n
+    import copy
+    ex = t2.Expr({'self.find.ori': 'ori'}, 'Z')
+    ot, on = row(blk.body, 'self.tind'), row(blk.body, 'self.tind_normals')
+    pt, pn = row(blk.orelse, 'self.tind'), row(blk.orelse, 'self.tind_normals')
+    out = []
+    for sd in (0, 1):
+        e = ast.fix_missing_locations(Fold(sd).visit(copy.deepcopy(ot)))
+        out.append(f'Definition gen_oriented_row{sd} (ori : Z) : Z := {ex.tr(e)}.')
+    out.append(f'Definition gen_oriented_normal_row (ori : Z) : Z := {ex.tr(on)}.')
+    if t2.src(pt) != 'side' or t2.src(pn) != '0':
+        raise TranslateError('plain facet sets: rows of f2t: ' + t2.src(pt) + ', ' + t2.src(pn))
+    out.append('Definition gen_plain_row (side : Z) : Z := side.\nDefinition gen_plain_normal_row : Z := 0%Z.')
+    return ('(* FacetBasis.__init__: row of f2t (negative rows count from the end: row mod 2) giving the cell on side 0 / 1 *)\n'
+            + '\n'.join(out))
+
 
 HEADER = '''(* GENERATED by vlib/c01_translate.py from bilinear_form.py, linear_form.py, functional.py, trilinear_form.py, coo_data.py
    of the implementation under test — do not edit *)
@@ -620,4 +668,4 @@ def translate():
     parts = [bilinear(), linear(), functional(), coodata(), trilinear()]
     body = '\n\n'.join(parts)
     body = '\n'.join(('  ' + l if l else l) for l in body.split('\n'))
-    return HEADER + body + '\nEnd Gen.\n'
+    return HEADER + body + '\nEnd Gen.\n\nRequire Import ZArith.\nLocal Open Scope Z_scope.\n' + facet_sides() + '\n'
